@@ -356,6 +356,61 @@ def x_fromregex( ctx ):
             raise AnalysisError( 'state.__init__: copy branch of the terminal flag not found' )
     else:
         res.bad( src, rets[-1] if rets else fn, 'initial state', 'the initial state must be a non-consuming copy of the fsm\'s initial state' )
+    # a multi-symbol ( multi-byte ) transition into a DEAD target is cut to its first encoded symbol only where no live wildcard leaves the
+    # origin: with a wildcard ( '.', a negated class ) the first octet alone does not tell the excluded symbol from its neighbours that share
+    # it ( rho / pi, EURO SIGN / KIP SIGN ): cut short, every symbol with that lead octet is refused where only one is excluded.  The test
+    # around the truncation is evaluated on the four ( target dead?, wildcard live? ) cells
+    from .fold import fold as fold_, NoFold as NoFold_
+    cuts = [ i_ for i_ in ast.walk( fn ) if isinstance( i_, ast.If ) and any( isinstance( a_, ast.Assign ) and isinstance( a_.value, ast.Subscript ) and isinstance( a_.value.slice, ast.Slice )
+                                                                                 and dotted( a_.targets[0] ) == dotted( a_.value.value ) and try_fold( a_.value.slice.upper ) == 1 for a_ in i_.body ) ]
+    if len( cuts ) == 1:
+        from .fold import run_block as run_block_
+        par_ = src.parent.get( cuts[0] )
+        blk_ = next(( getattr( par_, f_ ) for f_ in ( 'body', 'orelse' ) if cuts[0] in getattr( par_, f_, [] )), [] )
+        pre_ = []
+        for st_ in reversed( blk_[:blk_.index( cuts[0] )] ):			# the simple locals computed just ahead of the test
+            if isinstance( st_, ast.Assign ) and all( isinstance( t_, ast.Name ) for t_ in st_.targets ) and { t_.id for t_ in st_.targets } & names_in( cuts[0].test ):
+                pre_.insert( 0, st_ )
+            else:
+                break
+        used = set( names_in( cuts[0].test )) | { n_ for st_ in pre_ for n_ in names_in( st_.value ) }
+        used -= { t_.id for st_ in pre_ for t_ in st_.targets }
+        tabs = sorted( n_ for n_ in used if any(( isinstance( c_, ast.Subscript ) and dotted( c_.value ) == n_ ) or ( isinstance( c_, ast.Call ) and isinstance( c_.func, ast.Attribute ) and dotted( c_.func.value ) == n_ )
+                                                  or ( isinstance( c_, ast.Compare ) and any( dotted( x_ ) == n_ for x_ in c_.comparators ))
+                                                  for e_ in [ cuts[0].test ] + [ st_.value for st_ in pre_ ] for c_ in ast.walk( e_ )))
+        keys = sorted( n_ for n_ in used if n_ not in tabs )
+        if len( tabs ) != 1 or not ( 1 <= len( keys ) <= 2 ):
+            raise AnalysisError( 'from_regex: truncation test uses %s / %s' % ( tabs, keys ))
+        mappings = [ dict( zip( keys, ( 'P', 'N' ))), dict( zip( keys, ( 'N', 'P' ))) ] if len( keys ) == 2 else [ { keys[0]: 'N' }, { keys[0]: 'P' } ]
+        best = None
+        for roles_ in mappings:
+            wrong = []
+            for dead in ( True, False ):
+                for live in ( True, False ):
+                    table = { 'P': { True: ( 'W' if live else None ) } }
+                    if not dead:
+                        table['N'] = { }
+                    env_ = { tabs[0]: table }; env_.update( roles_ )
+                    try:
+                        run_block_( pre_, env_ )
+                        got_ = bool( fold_( cuts[0].test, env_ ))
+                    except ( NoFold_, AttributeError, TypeError, KeyError ):
+                        got_ = None
+                    if got_ != ( dead and not live ):
+                        wrong.append(( dead, live, got_ ))
+            if best is None or len( wrong ) < len( best ):
+                best = wrong
+        wrong = best
+        if wrong and all( w_[2] is None for w_ in wrong ):
+            raise AnalysisError( 'from_regex: truncation test not foldable: %s' % norm_text( ast.unparse( cuts[0].test )))
+        if wrong:
+            d_, l_, o_ = wrong[0]
+            res.bad( src, cuts[0], 'from_regex: a multi-symbol transition is cut to its first symbol when the target is %s and a wildcard is %s ( %s )' % ( 'dead' if d_ else 'live', 'live' if l_ else 'absent / dead', norm_text( ast.unparse( cuts[0].test ))[:70] ),
+                     'specified: cut only into a dead target from a state without a live wildcard - otherwise every symbol sharing the first encoded octet with the excluded one is rejected ( [^\u03c0]* refuses \u03c1 ), or a symbol that must be refused is absorbed' )
+        else:
+            res.ok( src, cuts[0], 'a multi-symbol transition is cut to its first symbol exactly when the target is dead and no live wildcard leaves the origin' )
+    elif cuts:
+        raise AnalysisError( 'from_regex: %d truncation sites' % len( cuts ))
     return res
 
 
